@@ -22,6 +22,12 @@ CLAIMED = {
             "contractions cannot hide; product ranks, result kind, shape metadata and dtype checked.",
             "Trusted: torch tensordot on the checker's dense contraction. Not covered: CUDA.",
             "DESIGN.md 4/C04"),
+    "C07": ("property-based testing (Hypothesis): generated reductions (norm/sum/dot/bilinear) vs. dense reductions incl. result shape",
+            "Generated search over routine x order (incl. 1) x operator/tensor x autograd state x every subset pattern of "
+            "reduced modes x dtype, with exact oracle for integer payloads and a roundoff bound scaled by the "
+            "absolute-value contraction otherwise; the shape of partial reductions is part of the oracle.",
+            "Trusted: torch reductions on the checker's dense contraction.",
+            "DESIGN.md 4/C07"),
 }
 
 NOT_YET = {}
